@@ -136,9 +136,11 @@ def render_acts(p, acts, asy, names, first_tilde, last_in_step=True):
 
 
 def branch_names(p):
-    """Name tokens per named branch. Three spellings: plain identifiers, raw identifiers (`r#n3`), and
-    identifiers that reach the macro through a `macro_rules!` parameter (other hygiene context)."""
-    mode = p.id % 3 if any(b["named"] for b in p.branches) else 0
+    """Name tokens per named branch. Four spellings: plain identifiers, raw identifiers (`r#n3`), identifiers that reach
+    the macro through a `macro_rules!` parameter (other hygiene context), and plain identifiers in an invocation that is
+    forwarded as a whole through a `macro_rules!` wrapper (the macro's call site is then inside that wrapper's expansion,
+    while every user token keeps the caller's hygiene context)."""
+    mode = p.id % 4 if any(b["named"] for b in p.branches) else 0
     if mode == 1:
         return {i: "r#n%d" % i for i, b in enumerate(p.branches) if b["named"]}
     if mode == 2:
@@ -146,11 +148,15 @@ def branch_names(p):
     return {i: "n%d" % i for i, b in enumerate(p.branches) if b["named"]}
 
 
-def wrap_hygiene(p, invocation):
-    """For hygiene mode: the invocation text uses `$aK` metavariables; wrap it into a local macro_rules."""
+def wrap_hygiene(p, kind, body):
+    """For hygiene mode: the invocation text uses `$aK` metavariables; wrap it into a local macro_rules.
+    For forwarding mode: the whole token list is passed through `__fwd!`."""
+    invocation = "%s! { %s }" % (kind, body)
     named = [i for i, b in enumerate(p.branches) if b["named"]]
-    if not named or p.id % 3 != 2:
+    if not named or p.id % 4 in (0, 1):
         return invocation
+    if p.id % 4 == 3:
+        return "{ macro_rules! __fwd { ($($t:tt)*) => { %s! { $($t)* } } } __fwd!(%s) }" % (kind, body)
     params = ", ".join("$a%d:ident" % i for i in named)
     args = ", ".join("n%d" % i for i in named)
     return "{ macro_rules! __t { (%s) => { %s } } __t!(%s) }" % (params, invocation, args)
@@ -245,10 +251,10 @@ def render_prog(p, want_async=True, skip=()):
         hk = hk_for(p, kind)
         body = render_body(p, kind, hk)
         if kind in ASYNC_KINDS:
-            lines.append("    pub fn k_%s() -> LocalFut { let f = %s; Box::pin(async move { norm(f.await) }) }" % (kind, wrap_hygiene(p, "%s! { %s }" % (kind, body))))
+            lines.append("    pub fn k_%s() -> LocalFut { let f = %s; Box::pin(async move { norm(f.await) }) }" % (kind, wrap_hygiene(p, kind, body)))
             run = "Run::Async(p%d::k_%s)" % (p.id, kind)
         else:
-            lines.append("    pub fn k_%s() -> Out { norm(%s) }" % (kind, wrap_hygiene(p, "%s! { %s }" % (kind, body))))
+            lines.append("    pub fn k_%s() -> Out { norm(%s) }" % (kind, wrap_hygiene(p, kind, body)))
             run = "Run::Sync(p%d::k_%s)" % (p.id, kind)
         hke = "None" if not hk else "Some(HK::%s)" % {"map": "Map", "and_then": "AndThen", "then": "Then"}[hk]
         cases.append("Case { prog: &p%d::PROG, kind: Kind::%s, hk: %s, run: %s }" % (p.id, KIND_ENUM[kind], hke, run))
@@ -492,6 +498,50 @@ def gen_capture_matrix(pid0):
     return progs
 
 
+def gen_names_matrix(pid0, tier, rng):
+    """C12, systematic: for small depth profiles (equal and unequal depths) every assignment of {unnamed, `let`, `let mut`}
+    to the branches (not all unnamed); every action of every later step carries a capture that reads every name."""
+    out = []
+    pid = pid0
+    small = [(2,), (2, 2), (1, 2), (2, 1)]
+    wide = [(2, 2, 2), (1, 2, 2)] if tier == "quick" else [(2, 2, 2), (1, 2, 2), (3, 3, 3), (3, 1, 2), (2, 2, 2, 2)]
+    for prof in small + wide:
+        combos = [c for c in itertools.product((0, 1, 2), repeat=len(prof)) if any(c)]
+        if prof in wide and tier == "quick":
+            rng.shuffle(combos)
+            combos = combos[:10]
+        elif len(prof) == 4:
+            rng.shuffle(combos)
+            combos = combos[:24]
+        for combo in combos:
+            p = Prog(pid)
+            p.tags = ["namesmatrix", "names", "cap"]
+            names_avail = [i for i, c in enumerate(combo) if c]
+            for bi, d in enumerate(prof):
+                steps = []
+                for k in range(d):
+                    acts = []
+                    if k == 0:
+                        acts.append(Act("Src", p.nid()))
+                        acts.append(Act(rng.choice(["Map", "AndThen"]), p.nid()))
+                    else:
+                        for _ in range(rng.randint(1, 2)):
+                            a = Act(rng.choice(["Map", "AndThen", "OrElse", "MapErr", "Inspect", "Then"]), p.nid())
+                            a.cap = p.nid()
+                            for b in names_avail:
+                                a.snaps.append((p.nid(), b))
+                            acts.append(a)
+                    steps.append(acts)
+                p.branches.append({"named": bool(combo[bi]), "mut": combo[bi] == 2, "steps": steps})
+            if rng.random() < 0.3:
+                p.handler = (p.nid(), rng.randint(0, len(prof)))
+                p.handler_block = rng.random() < 0.5
+                p.tags.append("handler")
+            out.append((p, True))
+            pid += 1
+    return out
+
+
 def profiles(max_n, max_d):
     for n in range(1, max_n + 1):
         for prof in itertools.product(range(1, max_d + 1), repeat=n):
@@ -537,6 +587,8 @@ def build_corpus(tier, seed):
         pid += 1
     cm = gen_capture_matrix(pid)
     progs += cm
+    pid = max(p.id for p, _ in progs) + 1
+    progs += gen_names_matrix(pid, tier, rng)
     return progs
 
 
